@@ -74,6 +74,8 @@ class TGen:
                     kids.append(('t', self.pick(['\n', ' ', '\n  '])))
                 if r.random() < 0.72:
                     kids.append(self.generic(depth + 1, maxdepth))
+                    if r.random() < 0.12:
+                        kids.append(kids[-1])          # an identical twin right after it
                 else:
                     kids.append(self.text_node())
         return ('e', name, self.attrs_generic(name), kids)
